@@ -47,7 +47,7 @@ META = {
   assumptions=STD + ["radix_trie 0.2.1: subtrie(key) is Some iff a node sits exactly at the key's nibble path (root, inserted key, or branching point)"],
   timeout=dict(quick=600, thorough=7200)),
  "C20": dict(
-  extra_modules=["Tie"],
+  extra_modules=["C20Refresh", "Tie"],
   rule="real-time histories (64 threads in parallel, 8 steps of 0.5 s): add-cached with TTL {0,1,2,1000} and cache-flush, add-authoritative, remove, clear on three A records (x.local, y.x.local, z.local); queries at quarter offsets with the authoritative (exact/subdomain), cached and combined filters; every call is bracketed by Instant::now(); the model is evaluated under the two extreme readings of the measured intervals and a query is compared only when both agree (otherwise counted inconclusive); oracle: the property re-stated over the recorded history; distinct = distinct (history prefix, query, answer)",
   assumptions=STD + ["std::time::Instant is a monotone clock; the runtime clock is observed through sleeps with measured intervals"],
   timeout=dict(quick=600, thorough=7200)),
